@@ -829,7 +829,7 @@ fn c11_world(seed: u64, index: u64, thorough: bool) -> HistoryReport {
                     break;
                 }
                 for u in USERS.iter().take(cfg.n_users) {
-                    if twin.q::<h::WithdrawableUnbondedResponse, _>(HUB, &h::QueryMsg::WithdrawableUnbonded { address: u.to_string() }).is_err() {
+                    if twin.q::<h::WithdrawableUnbondedResponse, _>(HUB, &serde_json::json!({"withdrawable_unbonded": {"address": u.to_string()}})).is_err() {
                         out.violation("C11", "queries_work_while_paused", format!("WithdrawableUnbonded({}) failed while paused", u));
                     }
                 }
@@ -937,7 +937,7 @@ fn c11_world(seed: u64, index: u64, thorough: bool) -> HistoryReport {
             // migrated entries are reported faithfully and nothing else changed
             let mut n_new = 0;
             for i in 0..5usize {
-                if let Ok(rq) = c.q::<h::UnbondRequestsResponse, _>(HUB, &h::QueryMsg::UnbondRequests { address: format!("legacy{}", i) }) {
+                if let Ok(rq) = c.q::<h::UnbondRequestsResponse, _>(HUB, &serde_json::json!({"unbond_requests": {"address": format!("legacy{}", i)}})) {
                     n_new += rq.requests.len();
                 }
             }
